@@ -315,7 +315,20 @@ struct Machine {
   bool op_idft(int d, bool tmp_a) {
     if (!D[d].valid) return false;
     uint64_t rs = ch.below(2) ? D[d].size : ch.below(5);
-    int bi = new_b(rs, D[d].flags | F_IDFT);
+    // one inverse transform in four writes over its own input (res == a_dft, the supported in-place form): the big vector then lives
+    // in the DFT vector's buffer, so res_size is limited by that buffer (an NTT120 DFT limb holds two big limbs)
+    const bool inplace = D[d].size >= 1 && ch.below(4) == 0;
+    int bi;
+    if (inplace) {
+      rs = std::min<uint64_t>(rs, D[d].size * dl() / bl());
+      BSlot sb;
+      sb.size = rs; sb.flags = D[d].flags | F_IDFT; sb.p = D[d].p;
+      sb.v.assign(rs, Poly(n, 0));
+      B.push_back(sb);
+      bi = (int)B.size() - 1;
+    } else {
+      bi = new_b(rs, D[d].flags | F_IDFT);
+    }
     for (uint64_t i = 0; i < rs; ++i) B[bi].v[i] = zlimb(D[d].v, i);
     if (tmp_a) {
       vec_znx_idft_tmp_a(mod, (VEC_ZNX_BIG*)B[bi].p, rs, (VEC_ZNX_DFT*)D[d].p, D[d].size);
@@ -324,8 +337,9 @@ struct Machine {
       uint8_t* t = scratch(vec_znx_idft_tmp_bytes(mod));
       vec_znx_idft(mod, (VEC_ZNX_BIG*)B[bi].p, rs, (VEC_ZNX_DFT*)D[d].p, D[d].size, t);
     }
+    if (inplace) D[d].valid = false;
     note_flags(B[bi].flags);
-    trace.push_back("B" + u(bi) + " = vec_znx_idft" + (tmp_a ? "_tmp_a" : "") + "(D" + u(d) + ", res_size=" + u(rs) + ")");
+    trace.push_back("B" + u(bi) + " = vec_znx_idft" + (tmp_a ? "_tmp_a" : "") + "(D" + u(d) + ", res_size=" + u(rs) + (inplace ? ", in place" : "") + ")");
     return check_b(bi, tmp_a ? "vec_znx_idft_tmp_a" : "vec_znx_idft");
   }
   bool op_svp_prepare(int a) {
